@@ -117,6 +117,25 @@ def run(ctx) -> None:
             rho[b] -= 2.0
             z[b + 3] = None
         dens_case(ctx, rho, z, -0.5, -1.5, "down", "huge")
+    import math
+    for _ in range(ctx.pick(60, 400)):
+        n = rng.choice([2, 3, 5, 8])
+        z = [float(k) * rng.choice([1.0, 2.5]) for k in range(n)]
+        if rng.random() < 0.5:
+            z = z[::-1]
+        rho = [float(np.float32(1025.0 + 0.1 * k - (0.3 if k == n // 2 else 0.0) + rng.random() * 0.01)) for k in range(n)]
+        k = rng.randrange(0, n - 1)
+        sign = 1 if z[k + 1] > z[k] else -1
+        d = sign * (rho[k + 1] - rho[k])  # exact in float64 (both are float32 values)
+        thr = math.nextafter(d, math.inf)  # d < thr by one float64 ulp: the pair is below the threshold
+        which = rng.choice(["suspect", "fail"])
+        st, ft = (thr, None) if which == "suspect" else (None, thr)
+        kw = {"inp": np.array(rho, dtype=np.float32), "zinp": np.array(z, dtype=np.float32), "suspect_threshold": st, "fail_threshold": ft}
+        client.expect(ctx, "C13", "qartod.density_inversion_test", kw, lambda: models.density_inversion(rho, z, st, ft),
+                      logical={"rho(float32 values)": rho, "z": z, "suspect_threshold": st, "fail_threshold": ft,
+                               "note": "threshold one float64 ulp above an actual pair difference"}, hist="density_inversion")
+        ctx.count("density.calls")
+        ctx.case(f"dens|f32-ulp-threshold|{which}|n{n}")
     # pressure_increasing_test
     def pres_case(p, carrier, tag) -> None:
         adm = models.pressure_increasing(p)
